@@ -19,3 +19,5 @@ func verifStep() int
 func verifYield()
 func verifAwaitAfterFunc(id int)
 func verifAtomic(f func())
+func verifLastRandN() int
+func verifLastRand() int
